@@ -23,6 +23,13 @@ var (
 	ElCustom   = strings.Fields("my-x my-y x-foo x-bar-baz my-")
 	ElMedia    = strings.Fields("audio video picture canvas")
 	ElDanger   = strings.Fields("script style")
+	// ElAll: every element name of HTML (current and obsolete), MathML/SVG staples included.
+	ElAll = strings.Fields(`a abbr acronym address applet area article aside audio b base basefont bdi bdo bgsound big blink blockquote body br button canvas caption center cite code col colgroup
+command content data datalist dd del details dfn dialog dir div dl dt element em embed fieldset figcaption figure font footer form frame frameset h1 h2 h3 h4 h5 h6 head header hgroup hr html i
+iframe image img input ins isindex kbd keygen label legend li link listing main map mark marquee math menu menuitem meta meter multicol nav nextid nobr noembed noframes noscript object ol optgroup
+option output p param picture plaintext portal pre progress q rb rp rt rtc ruby s samp script search section select shadow slot small source spacer span strike strong style sub summary sup svg
+table tbody td template textarea tfoot th thead time title tr track tt u ul var video wbr xmp mi mo mn ms mtext mglyph malignmark annotation-xml foreignobject desc g path circle rect use defs symbol
+animate set a:b`)
 	ElOdd      = []string{"a<b", "a\"b", "a=b", "x:y", "o:p", "isindex", "image", "keygen", "listing", "marquee", "template", "slot", "body", "html", "head", "frame", "applet", "bgsound", "basefont", "dialog", "menuitem", "rb", "rtc"}
 )
 
